@@ -562,11 +562,20 @@ func feed(n int, kind string, data []byte, concrete interface{}) {
 	if ev.Outcome == "ok" && p != nil {
 		nt = fmt.Sprintf("ok:%s", kind)
 		ev.Out = shapeOf(p)
+		// a panic inside the library may leave the profile's encode lock held: after the first
+		// panic or timeout the profile is not used again (the event is rejected anyway)
+		dead := false
 		add := func(name string, f func() error) {
+			if dead {
+				return
+			}
 			o := guard(f)
 			if strings.HasPrefix(o, "panic") {
 				run.Note(fmt.Sprintf("event %d follow-up %s: %s", n, name, o))
 				o = "panic"
+			}
+			if o == "panic" || o == "timeout" {
+				dead = true
 			}
 			ev.Follow = append(ev.Follow, follow{name, o})
 		}
@@ -598,17 +607,19 @@ func feed(n int, kind string, data []byte, concrete interface{}) {
 		}
 		// what the parser returns survives write-then-parse unchanged and re-serialises identically (C01)
 		ev.Fix, ev.Bytes = false, false
-		guard(func() error {
-			q, err := profile.ParseUncompressed(w1)
-			if err != nil {
-				return err
-			}
-			var b2 bytes.Buffer
-			q.WriteUncompressed(&b2)
-			ev.Fix = vlib.ProjectFull(q).Equal(vlib.ProjectFull(p))
-			ev.Bytes = bytes.Equal(w1, b2.Bytes())
-			return nil
-		})
+		if !dead {
+			guard(func() error {
+				q, err := profile.ParseUncompressed(w1)
+				if err != nil {
+					return err
+				}
+				var b2 bytes.Buffer
+				q.WriteUncompressed(&b2)
+				ev.Fix = vlib.ProjectFull(q).Equal(vlib.ProjectFull(p))
+				ev.Bytes = bytes.Equal(w1, b2.Bytes())
+				return nil
+			})
+		}
 	} else if ev.Outcome == "err" {
 		nt = "err:" + kind
 	}
